@@ -126,6 +126,16 @@ class C11(Check):
                 out.cls('chief_ray_fails')
                 return
             raise
+        if case['fld'] % 2 == 0:
+            # one case in two: the PSF is drawn before anything is read from it (what it reports must not depend on that)
+            import matplotlib.pyplot as plt
+            try:
+                psf.view(projection='2d' if case['fld'] % 4 == 0 else '3d', log=bool(case['N'] % 2))
+                out.cls('drawn_before_reading')
+            except Exception:  # noqa  (a figure of undefined data is not part of the property)
+                out.cls('view_raised')
+            finally:
+                plt.close('all')
         W = np.asarray(psf.data[0][0][0], dtype=float)
         I = np.asarray(psf.data[0][0][1], dtype=float)
         if not (np.all(np.isfinite(W)) and np.all(np.isfinite(I))):
